@@ -135,7 +135,7 @@ def traced(cls, ctl):
 
 
 # ------------------------------------------------------------------ one call
-def call_assemble(vcls, mclss, vrec, mrecs, id_, name, fault=None):
+def call_assemble(vcls, mclss, vrec, mrecs, id_, name, fault=None, prequery=False):
     """performs vector.assemble(*modules) on the given record objects; returns the out dict"""
     from moclo import errors
     from moclo.record import CircularRecord
@@ -150,6 +150,12 @@ def call_assemble(vcls, mclss, vrec, mrecs, id_, name, fault=None):
         vec = vcls(vrec)
         mods = [c(r) for c, r in zip(mclss, mrecs)]
         KEEP.extend([vec] + mods)
+        if prequery:          # the user inspects the very wrappers that are assembled afterwards
+            for w in [vec] + mods:
+                try:
+                    w.is_valid(), w.overhang_start(), w.overhang_end(), w.target_sequence()
+                except Exception:  # noqa
+                    pass
         kw = {}
         if id_ is not None:
             kw["id"] = id_
@@ -234,7 +240,7 @@ def exec_assembly(r):
     proj_in = [rec_proj(x) for x in inputs]
     if r.get("warmup"):        # the logged call is the second one on the same objects
         call_assemble(vcls, mclss, vrec, mrecs, r.get("id"), r.get("name"), None)
-    out = call_assemble(vcls, mclss, vrec, mrecs, r.get("id"), r.get("name"), r.get("fault"))
+    out = call_assemble(vcls, mclss, vrec, mrecs, r.get("id"), r.get("name"), r.get("fault"), prequery=bool(r.get("prequery")))
     prod = out.pop("_product", None)
     after = [snapshot(x) for x in inputs]
     ev = {"ev": "Assemble", "enz": {"site": dna.enc(s), "off": o, "ovh": k},
